@@ -1461,7 +1461,12 @@ class Interp:
                     return self.st.new_list(self.spec_funcs['nonnull'](self, t), k)
         # comprehension over a concrete sequence
         if len(gens) == 1:
-            src = self.eval(gens[0].iter, fr)
+            if isinstance(gens[0].iter, (ast.List, ast.Tuple)) and not any(isinstance(x, ast.Starred) for x in gens[0].iter.elts):
+                # a literal display that is only iterated: its items need not share one element kind (e.g. [start, end, step]
+                # with None among integers)
+                src = VTuple([self.eval(x, fr) for x in gens[0].iter.elts])
+            else:
+                src = self.eval(gens[0].iter, fr)
             items = self.concrete_items(src)
             if items is not None:
                 out = []
